@@ -2630,6 +2630,10 @@ class SliceDataset(Dataset):
 
     def __getitem__(self, item):
         if isinstance(item, str):
+            if item not in self.keys():
+                # The input dataset may know the key, but it does not belong
+                # to the examples that are selected by the slice.
+                raise KeyErrorCloseMatches(item, self.keys())
             return self.input_dataset[item]
         elif isinstance(item, numbers.Integral):
             return self.input_dataset[self.slice[item]]
